@@ -182,3 +182,14 @@ pub fn c13_collected_error_returned(items: Vec<Result<u32, std::io::Error>>) -> 
     Ok((first_error, sum))
 }
 
+// ---- C02-R12: two same-typed values handed down in each other's position --------------------------------
+pub fn c02_whiten(position: &[f64], gradient: &[f64], out: &mut [f64]) {
+    for ((o, p), g) in out.iter_mut().zip(position).zip(gradient) {
+        *o = *p - *g;
+    }
+}
+
+pub fn c02_swapped_caller(position: &[f64], gradient: &[f64], out: &mut [f64]) {
+    c02_whiten(gradient, position, out)
+}
+
